@@ -11,7 +11,7 @@ MANIFEST = dict(
          "every max_concurrent, every set of failing jobs, every topologically listed graph: C14_full (no exception "
          "escapes the scheduling loop; a run that ends by itself has launched exactly the jobs that are not "
          "downstream of a failing job and its error names exactly the failed jobs), C14_never_downstream (at no "
-         "point of any run is a job downstream of a failed job launched). C14_refuted_running_then_fail shows the "
+         "point of any run is a job downstream of a failed job launched). C14_full_total (with D1's termination proof Proofs/SchedTermA.v on this model: fuel >= |jobs|+2, max_concurrent >= 1 or none => the run ENDS, Finished with the exact c14 outcome or Stalled by the ten-poll stall detector, in which case every launched job was allowed to run and every named error is a launched failed job; completeness is not claimed for Stalled). C14_refuted_running_then_fail shows the "
          "statement is false for the model of the code as pinned (finding F14: a job seen running that then fails "
          "aborts the loop) — repaired in /repo by a fix: commit, after which the model follows the repaired code. "
          "Tie: fake asynchronous Worker dictating completion order, failures and lock-file visibility; every poll, "
